@@ -94,6 +94,38 @@ func canonRef(fd *ast.FuncDecl, e ast.Expr) string {
 	return canon(e, 0)
 }
 
+// concatAsFormat: a + "/" + b read as the Sprintf format "%s/%s" with operands [a b] (string operands only: the caller knows the types)
+func concatAsFormat(e ast.Expr) (format string, args []string, ok bool) {
+	var parts []ast.Expr
+	var flat func(e ast.Expr) bool
+	flat = func(e ast.Expr) bool {
+		switch x := e.(type) {
+		case *ast.ParenExpr:
+			return flat(x.X)
+		case *ast.BinaryExpr:
+			if x.Op.String() != "+" {
+				return false
+			}
+			return flat(x.X) && flat(x.Y)
+		}
+		parts = append(parts, e)
+		return true
+	}
+	if !flat(e) || len(parts) < 2 {
+		return "", nil, false
+	}
+	var b strings.Builder
+	for _, p := range parts {
+		if s, isLit := strLit(p); isLit {
+			b.WriteString(strings.ReplaceAll(s, "%", "%%"))
+			continue
+		}
+		b.WriteString("%s")
+		args = append(args, exprText(p))
+	}
+	return b.String(), args, true
+}
+
 func genRegexes() {
 	g := newGen("Regexes", "From Apko Require Import Base.Prelude Base.Regex.")
 	g.regex("version_regex", "pkg/apk/apk/version.go", "versionRegex")
